@@ -983,6 +983,14 @@ class AirTouch5(pyairtouch.api.AirTouch):
         header: pyairtouch.at5.comms.hdr.At5Header,
         message: pyairtouch.comms.Message,
     ) -> None:
+        if (
+            header.to_address != pyairtouch.at5.comms.hdr.ADDRESS_CLIENT
+            and self._state != _AirTouchState.CONNECTED
+        ):
+            # An answer for another client must not be mistaken for the answer
+            # to one of the initialisation requests.
+            return
+
         # Process messages according to the current state.
         # Unhandled messages are silently ignored.
         match message:
